@@ -7,3 +7,9 @@ open GV.MerkleTreeGen
 #print axioms C16tree_prove
 #print axioms C16tree_setIndex
 #print axioms C16tree_pushSubTree
+#print axioms C16tree_step
+#print axioms C16tree_run
+#print axioms C16tree_history
+#print axioms C16tree_start
+#print axioms C16tree_root_eq_MTH
+#print axioms C16tree_prove_verifies
